@@ -228,6 +228,14 @@ def closure_cases(rng, ctx, reps=1):
                         cid = 'clo-%d-%s-%s-%s-%s' % (rep, sname, opname, pname, order)
                         cases.append({'id': cid, 'ev': 'wf', 'require': 'closed', 'res': _res(out)})
                         ctx.nontrivial.add(('clo', sname, opname, pname, order))
+        # powers: real ones are closed; those with a complex number or a complex observable are a recorded finding
+        for sname in ('obs', 'cobs'):
+            for pname in ('int', 'float', 'npfloat', 'complex', 'npcomplex'):
+                for order in ('left', 'right'):
+                    s_, p_ = subjects[sname](), partners[pname]()
+                    out = _call(lambda: s_ ** p_ if order == 'left' else p_ ** s_)
+                    cases.append({'id': 'clo-%d-%s-pow-%s-%s' % (rep, sname, pname, order), 'ev': 'wf', 'require': 'closed',
+                                  'complexpower': sname == 'cobs' or 'complex' in pname, 'res': _res(out)})
         for fn in gen.UNARY:
             x = o[0] * 0 + (1.7 if fn == 'arccosh' else 0.45) + (o[0] - o[0].value) * 0.1
             out = _call(lambda: -x if fn == 'neg' else abs(x) if fn == 'abs' else getattr(np, fn)(x))
